@@ -4,6 +4,13 @@
 //! shape, symbolic keys incl. duplicates) and every choice of argument node, `insert` / `peek_min` / `remove`
 //! re-establish well-formedness, change membership by exactly the argument, expose a minimum, and leave a removed
 //! node without links.  Compiled only under cfg(kani) as a child module of the heap module.
+//! GROUP: heap
+//! MODULE: intrusive_pairing_heap::kani_verif
+//! TAGS: C20
+//! N: quick=3 thorough=4
+//! UNWIND_EXTRA: 4
+//! KIND: harness (concrete shape, symbolic keys)
+//! BOUNDED: this heap shape; all key values
 use super::*;
 
 /// largest heap explored
@@ -301,6 +308,7 @@ fn remove_k2_0_j1() {
 fn build_k3_00() {
     check_build(3, &[0, 0, 0]);
 }
+// TIER: thorough
 #[kani::proof]
 fn insert_k3_00() {
     check_insert(3, &[0, 0, 0]);
@@ -321,6 +329,7 @@ fn remove_k3_00_j2() {
 fn build_k3_01() {
     check_build(3, &[0, 0, 1]);
 }
+// TIER: thorough
 #[kani::proof]
 fn insert_k3_01() {
     check_insert(3, &[0, 0, 1]);
@@ -337,122 +346,152 @@ fn remove_k3_01_j1() {
 fn remove_k3_01_j2() {
     check_remove(3, &[0, 0, 1], 2);
 }
+// TIER: thorough
 #[kani::proof]
 fn build_k4_000() {
     check_build(4, &[0, 0, 0, 0]);
 }
+// TIER: thorough
 #[kani::proof]
 fn remove_k4_000_j0() {
     check_remove(4, &[0, 0, 0, 0], 0);
 }
+// TIER: thorough
 #[kani::proof]
 fn remove_k4_000_j1() {
     check_remove(4, &[0, 0, 0, 0], 1);
 }
+// TIER: thorough
 #[kani::proof]
 fn remove_k4_000_j2() {
     check_remove(4, &[0, 0, 0, 0], 2);
 }
+// TIER: thorough
 #[kani::proof]
 fn remove_k4_000_j3() {
     check_remove(4, &[0, 0, 0, 0], 3);
 }
+// TIER: thorough
 #[kani::proof]
 fn build_k4_001() {
     check_build(4, &[0, 0, 0, 1]);
 }
+// TIER: thorough
 #[kani::proof]
 fn remove_k4_001_j0() {
     check_remove(4, &[0, 0, 0, 1], 0);
 }
+// TIER: thorough
 #[kani::proof]
 fn remove_k4_001_j1() {
     check_remove(4, &[0, 0, 0, 1], 1);
 }
+// TIER: thorough
 #[kani::proof]
 fn remove_k4_001_j2() {
     check_remove(4, &[0, 0, 0, 1], 2);
 }
+// TIER: thorough
 #[kani::proof]
 fn remove_k4_001_j3() {
     check_remove(4, &[0, 0, 0, 1], 3);
 }
+// TIER: thorough
 #[kani::proof]
 fn build_k4_002() {
     check_build(4, &[0, 0, 0, 2]);
 }
+// TIER: thorough
 #[kani::proof]
 fn remove_k4_002_j0() {
     check_remove(4, &[0, 0, 0, 2], 0);
 }
+// TIER: thorough
 #[kani::proof]
 fn remove_k4_002_j1() {
     check_remove(4, &[0, 0, 0, 2], 1);
 }
+// TIER: thorough
 #[kani::proof]
 fn remove_k4_002_j2() {
     check_remove(4, &[0, 0, 0, 2], 2);
 }
+// TIER: thorough
 #[kani::proof]
 fn remove_k4_002_j3() {
     check_remove(4, &[0, 0, 0, 2], 3);
 }
+// TIER: thorough
 #[kani::proof]
 fn build_k4_010() {
     check_build(4, &[0, 0, 1, 0]);
 }
+// TIER: thorough
 #[kani::proof]
 fn remove_k4_010_j0() {
     check_remove(4, &[0, 0, 1, 0], 0);
 }
+// TIER: thorough
 #[kani::proof]
 fn remove_k4_010_j1() {
     check_remove(4, &[0, 0, 1, 0], 1);
 }
+// TIER: thorough
 #[kani::proof]
 fn remove_k4_010_j2() {
     check_remove(4, &[0, 0, 1, 0], 2);
 }
+// TIER: thorough
 #[kani::proof]
 fn remove_k4_010_j3() {
     check_remove(4, &[0, 0, 1, 0], 3);
 }
+// TIER: thorough
 #[kani::proof]
 fn build_k4_011() {
     check_build(4, &[0, 0, 1, 1]);
 }
+// TIER: thorough
 #[kani::proof]
 fn remove_k4_011_j0() {
     check_remove(4, &[0, 0, 1, 1], 0);
 }
+// TIER: thorough
 #[kani::proof]
 fn remove_k4_011_j1() {
     check_remove(4, &[0, 0, 1, 1], 1);
 }
+// TIER: thorough
 #[kani::proof]
 fn remove_k4_011_j2() {
     check_remove(4, &[0, 0, 1, 1], 2);
 }
+// TIER: thorough
 #[kani::proof]
 fn remove_k4_011_j3() {
     check_remove(4, &[0, 0, 1, 1], 3);
 }
+// TIER: thorough
 #[kani::proof]
 fn build_k4_012() {
     check_build(4, &[0, 0, 1, 2]);
 }
+// TIER: thorough
 #[kani::proof]
 fn remove_k4_012_j0() {
     check_remove(4, &[0, 0, 1, 2], 0);
 }
+// TIER: thorough
 #[kani::proof]
 fn remove_k4_012_j1() {
     check_remove(4, &[0, 0, 1, 2], 1);
 }
+// TIER: thorough
 #[kani::proof]
 fn remove_k4_012_j2() {
     check_remove(4, &[0, 0, 1, 2], 2);
 }
+// TIER: thorough
 #[kani::proof]
 fn remove_k4_012_j3() {
     check_remove(4, &[0, 0, 1, 2], 3);
